@@ -225,6 +225,8 @@ def run_case(case, ctx):
             if why:
                 return Outcome(ok=False, why="sync refused for the lock but %s" % why)
             r3 = w.cmd("sync", ["-E", "-Z"])
+            if r3.rc != 0 and b"Insufficient parity space" in r3.err:
+                return Outcome(ok=True, classes=sorted(classes | {"parity limit reached (legitimate refusal)"}))
             if r3.rc != 0:
                 return Outcome(ok=False, why="sync still refused (rc=%d) after the first command ended: %s" % (r3.rc, r3.err[-200:].decode("latin-1")))
             classes.add("lock holder " + first)
